@@ -40,10 +40,12 @@ Definition merge_ok (fs : list (string * string)) (merged : list string) : bool 
   forallb (fun p : string * string => negb (String.eqb (snd p) "bool") || smem (fst p) merged) fs.
 
 (* functions that read relaxation flags but take no part in accepting a text:
-   rendering of two header fields, trace-number assignment in build, merge *)
+   rendering of two header fields, trace-number assignment in build, merge, and (since
+   66a624ee) the split of a mixed IAT batch by SegmentFile, which keeps the entries' trace
+   numbers exactly when IATBatch.build would not assign new ones *)
 Definition nonvalidation_funcs : list string :=
   ["Batch.build"; "IATBatch.build"; "FileHeader.ImmediateDestinationField";
-   "FileHeader.ImmediateOriginField"; "ValidateOpts.merge"].
+   "FileHeader.ImmediateOriginField"; "ValidateOpts.merge"; "File.segmentFileIATBatches"].
 
 Definition site_eqb (a b : site) : bool :=
   String.eqb (s_func a) (s_func b) && flag_eqb (s_flag a) (s_flag b) && Nat.eqb (s_occ a) (s_occ b).
